@@ -177,6 +177,24 @@ def condMethods : List MethodInfo := [
 
 def MethodInfo.find (tbl : List MethodInfo) (n : String) : Option MethodInfo := tbl.find? (·.name == n)
 
+/-- classification of an exported method that is NOT in the tables (added to the source later), from the
+regenerated facts alone: a method from which no write through a receiver / configuration and no `lock()` is
+reachable is a query; one that tests the read-only flag itself is a guarded mutator; anything else cannot be
+classified (and the completeness theorems fail). The zero result of such a method is unknown ("?"). -/
+def autoClass (recv name : String) : Option MethodInfo :=
+  match Gen.facts.find? (fun f => f.recv == recv && f.name == name && f.exported) with
+  | some f =>
+    if !f.reachWrite && !f.reachLock && !f.writes && (f.initGuard || f.getState || f.delegates != "") then some ⟨name, .query, "?"⟩
+    else if f.ronlyGuard && f.initGuard then some ⟨name, .guarded, "?"⟩
+    else none
+  | none => none
+
+/-- table first, facts-derived classification second -/
+def MethodInfo.findOrAuto (tbl : List MethodInfo) (recv n : String) : Option MethodInfo :=
+  match MethodInfo.find tbl n with
+  | some m => some m
+  | none => autoClass recv n
+
 /-- an argument of a call (only what the skeleton needs to see) -/
 inductive Arg where
   | int (i : Int) | str (s : Text) | bool (b : Bool) | err (e : Option Nat) | id (n : Nat) | val (v : Val) | op (o : Op)
